@@ -189,10 +189,21 @@ func (u *Unit) assignedVars(n ast.Node) []*types.Var {
 				add(n.Value)
 			}
 		case *ast.CallExpr:
-			// pointer-receiver calls on struct locals / copy-in-out modify the local
+			// pointer-receiver calls on non-boxed struct values (fields, elements) are copy-in/copy-out: they modify the container
 			if se, ok := ast.Unparen(n.Fun).(*ast.SelectorExpr); ok {
 				if sel, ok := u.info.Selections[se]; ok && sel.Kind() == types.MethodVal {
-					add(se.X)
+					if f, ok := sel.Obj().(*types.Func); ok {
+						if sig := f.Type().(*types.Signature); sig.Recv() != nil {
+							_, wantPtr := sig.Recv().Type().Underlying().(*types.Pointer)
+							rt := u.typeOf(se.X)
+							if rt != nil {
+								_, havePtr := rt.Underlying().(*types.Pointer)
+								if wantPtr && !havePtr && !types.IsInterface(rt) {
+									add(se.X)
+								}
+							}
+						}
+					}
 				}
 			}
 			for _, a := range n.Args {
@@ -279,7 +290,44 @@ func (u *Unit) loopHeapEffects(n ast.Node) (all bool, some map[string]bool) {
 				}
 				return true
 			}
-			if u.eng.isPureExternal(callee) {
+			if u.eng.isPureExternal(callee) || readOnlyExternal[callee.Name()] || readOnlyExternalFull[callee.FullName()] {
+				return true
+			}
+			if callee.Pkg() != nil && !u.eng.isRepoPkg(callee.Pkg().Path()) {
+				// same effect summary as externalCall: writes only through slice / pointer / map arguments
+				var argTypes []types.Type
+				if se, ok := ast.Unparen(n.Fun).(*ast.SelectorExpr); ok {
+					if _, isSel := u.info.Selections[se]; isSel {
+						argTypes = append(argTypes, u.typeOf(se.X))
+					}
+				}
+				for _, a := range n.Args {
+					argTypes = append(argTypes, u.typeOf(a))
+				}
+				for _, t := range argTypes {
+					if t == nil {
+						all = true
+						continue
+					}
+					switch ut := t.Underlying().(type) {
+					case *types.Slice:
+						some[u.elemHeap(ut.Elem())] = true
+					case *types.Pointer:
+						if nm, ok := ut.Elem().(*types.Named); ok && nm.Obj().Pkg() != nil && !u.eng.isRepoPkg(nm.Obj().Pkg().Path()) {
+							continue
+						}
+						some[u.cellHeapName(ut.Elem())] = true
+					case *types.Signature:
+						all = true
+					case *types.Interface:
+						if !isErrorType(t) && !isEmptyInterface(t) && !u.eng.externalIface(t) {
+							all = true
+						}
+					case *types.Map:
+						hp, hv := u.mapHeaps(ut)
+						some[hp], some[hv] = true, true
+					}
+				}
 				return true
 			}
 			all = true
@@ -921,8 +969,26 @@ func (u *Unit) frameGoals(st *State, only map[string]bool) []frameGoal {
 		for _, sm := range sliceMods[h] {
 			except = append(except, not(eq(r, sm.ref)))
 		}
-		g := fmt.Sprintf("(forall ((%s Int)) %s)", r, implies(and(append([]string{"(<= 1 " + r + ")", "(< " + r + " " + alloc0 + ")"}, except...)...),
-			eq(fmt.Sprintf("(select %s %s)", end, r), fmt.Sprintf("(select %s %s)", start, r))))
+		var spares []spareRegion
+		for _, sp := range st.spare {
+			if sp.heap == h {
+				spares = append(spares, sp)
+			}
+		}
+		var g string
+		if len(spares) == 0 {
+			g = fmt.Sprintf("(forall ((%s Int)) %s)", r, implies(and(append([]string{"(<= 1 " + r + ")", "(< " + r + " " + alloc0 + ")"}, except...)...),
+				eq(fmt.Sprintf("(select %s %s)", end, r), fmt.Sprintf("(select %s %s)", start, r))))
+		} else {
+			// element-wise, exempting spare capacity written by in-place append (assumed unobservable)
+			u.c.n++
+			k := fmt.Sprintf("k_q%d", u.c.n)
+			for _, sp := range spares {
+				except = append(except, or(not(eq(r, sp.ref)), c.idxLt(k, sp.lo)))
+			}
+			g = fmt.Sprintf("(forall ((%s Int) (%s %s)) %s)", r, k, c.idxSort(), implies(and(append([]string{"(<= 1 " + r + ")", "(< " + r + " " + alloc0 + ")"}, except...)...),
+				eq(fmt.Sprintf("(select (select %s %s) %s)", end, r, k), fmt.Sprintf("(select (select %s %s) %s)", start, r, k))))
+		}
 		out = append(out, frameGoal{"frame[" + h + "]", "nothing outside the modifies clause changes in " + h, g})
 		// inside a modified slice's block: elements outside [off, off+len) unchanged
 		for i, sm := range sliceMods[h] {
@@ -1169,6 +1235,7 @@ func (u *Unit) execRange(st *State, s *ast.RangeStmt, label string) *State {
 		if kv == nil {
 			kv = types.NewVar(s.Pos(), u.pkg.Types, fmt.Sprintf("range%d", n), intT)
 		}
+		u.rangeVars[n] = kv
 		kt := kv.Type()
 		zero := u.zeroOf(kt)
 		if u.info.Defs != nil && s.Tok == token.DEFINE || keyVar == nil {
